@@ -8,12 +8,12 @@ from harness.common import Ck, coq_Z_list, coq_list
 from translate import c08_sites
 
 MANIFEST = dict(
-    technique='Rocq proof (allocator refinement to a finite set, lifecycle NoDup invariants by induction over histories of several maps incl. copy/parse/collapse, nested Entity/Solid/Side world with bundled events incl. collapse_one and VMF.parse as a program read from the source, nav-node ID lifecycle in one and several maps, fixup indexes over whole histories) + ast site censuses with semantic normalisation + vm_compute correspondences',
-    text='Theorems in Props/C08.v: the IDMan scan terminates and returns a positive unused ID keeping the search_pos invariant; from every invariant state IDMan is observationally equal to a plain finite set that hands out the desired ID if positive and free, else the least free positive ID (search_pos is unobservable); for every history over any number of maps of construction with arbitrary desired IDs, copy() within and across maps, removal, re-adding, destruction, VMF.parse of documents with colliding/missing/non-positive IDs and collapse_one, the existing objects of one kind that belong to one map have pairwise distinct positive IDs, provided IDs are released only by destructors and every copy site passes the destination map down; the same for entities, their brushes and the faces of those as ONE world whose events are the bundles of constructor/copy/remove/destructor calls made for a top-level object and its parts (order and desired IDs of the nested calls are part of the model), VMF.parse of any document being one such event: the steps of VMF.parse that touch these IDs (placeholder worldspawn of the constructor, world block, re-binding of map.spawn = the moment the destructor of the placeholder runs under CPython reference counting, entity blocks) are read off its body on every run and interpreted by the model, and the theorem holds for every such program that contains no explicit release -- so parse-then-allocate histories are covered, and a parse that hands the ID of the placeholder back itself is refuted by a computed witness (entity IDs 1, 1); nav-node IDs held by existing entities are distinct and positive after every history of key set/delete/copy/remove/re-add/destroy provided remove_ent does not release them and copies register their node ID, in one map and over several maps incl. cross-map copies, IDs reserved by Instance.fixup_key and collapse_one of node entities (copy all, then reserve and reassign every copied node ID); replaceNN indexes of one entity are distinct and positive after the constructor on any list and every sequence of set/setdefault/update, del/pop, clear, rebuild by Entity.copy and copy/deepcopy/pickle. The premises (release sites, ID stores, map argument of every constructor/copy call inside copy() methods and collapse_one, every write into Entity._keys and into the fixup index table, node-ID shapes, fixup acceptance test / deferral / start index, hint guard, the program of VMF.parse, the map argument of every constructor call in helpers such as make_prism, the manager class chosen when preserve_ids is false) are regenerated from the source on every run by a fail-closed translator that normalises names, test spellings, branch order, single-use locals, helper functions and loop forms, and are kernel-checked; IDMan, EntityFixup histories, the entity lifecycle, three-map histories of entities/brushes/faces/brush groups/visgroups (per kind and as bundled events), node-ID histories in one map and over three maps (with the real collapse_one) and VMF.parse results are compared with the models on random inputs (exact IDs); histories over all ID kinds including collapse_one (visgroup False / True / a VisGroup), make_prism / make_hollow and maps that start as parsed documents (world id 1, small colliding IDs) are searched on real VMF objects, the worldspawn included in every entity scan, with a full gc.collect() at every step boundary.',
-    note='Trusted: Coq kernel + vm_compute, translate/c08_sites.py, c08_keys.py, c08_norm.py (which call sites matter: copy() methods of the five ID classes and collapse_one; other functions that build objects from a foreign map are not in the census), hand models SM/IdMan.v, SM/IdLife.v, SM/IdFixupHist.v, SM/IdWorld.v, SM/IdNest.v, SM/IdNode.v, SM/IdNodeMaps.v (tied by differential runs), CPython refcount/gc for __del__ timing (observed, not assumed, for the placeholder worldspawn of VMF.parse: weak references record at which constructor call it is gone; a full collection runs at every step boundary of the histories). Brush groups and visgroups are independent single-kind models (each class uses the manager of its kind: census obligation); their IDs are never released (no destructor: leak, modelled as such). collapse_one is an event of the nested model (which brushes and entities it copies, in which order, is computed by the model and compared with the real function; hidden objects, visgroup handling and the keyvalue rewriting are searched, not modelled). Node IDs reserved by Instance.fixup_key are never released (a leak; modelled as the events NReserve / MReserve and compared). In the several-maps node model a nodeid key is a node ID for the entity classes whose FGD type says so (the correspondence sets it on info_node only). The deprecated Entity.keys dict (returned by reference) and a table handed to EntityFixup.__setstate__ bypass the censuses (listed as exposures). Maps opened with preserve_ids=True are exempt by definition: they use NullIDMan, which hands desired IDs out without looking; C08 assumes NullIDMan is used for nothing else, and the census obligation maps_get_idman_unless_preserve_ids checks that VMF.__init__ gives all six managers the class IDMan when preserve_ids is false, that it defaults to False in VMF.__init__ and VMF.parse and that parse hands its parameter on. A stage in which the implementation loops or raises ends as a VIOLATION with the stage and seed as replay (alarm timer around every stage).',
+    technique='Rocq proof (allocator refinement to a finite set, lifecycle NoDup invariants by induction over histories of several maps incl. copy/parse/collapse, nested Entity/Solid/Side world with bundled events incl. collapse_one and VMF.parse as a program read from the source, nav-node ID lifecycle in one and several maps, fixup indexes over whole histories, constructors that raise half-way as step lists read from the source incl. the attrs-generated __init__) + ast site censuses with semantic normalisation + vm_compute correspondences',
+    text='Theorems in Props/C08.v: the IDMan scan terminates and returns a positive unused ID keeping the search_pos invariant; from every invariant state IDMan is observationally equal to a plain finite set that hands out the desired ID if positive and free, else the least free positive ID (search_pos is unobservable); for every history over any number of maps of construction with arbitrary desired IDs, copy() within and across maps, removal, re-adding, destruction, VMF.parse of documents with colliding/missing/non-positive IDs and collapse_one, the existing objects of one kind that belong to one map have pairwise distinct positive IDs, provided IDs are released only by destructors and every copy site passes the destination map down; the same for entities, their brushes and the faces of those as ONE world whose events are the bundles of constructor/copy/remove/destructor calls made for a top-level object and its parts (order and desired IDs of the nested calls are part of the model), VMF.parse of any document being one such event: the steps of VMF.parse that touch these IDs (placeholder worldspawn of the constructor, world block, re-binding of map.spawn = the moment the destructor of the placeholder runs under CPython reference counting, entity blocks) are read off its body on every run and interpreted by the model, and the theorem holds for every such program that contains no explicit release -- so parse-then-allocate histories are covered, and a parse that hands the ID of the placeholder back itself is refuted by a computed witness (entity IDs 1, 1); nav-node IDs held by existing entities are distinct and positive after every history of key set/delete/copy/remove/re-add/destroy provided remove_ent does not release them and copies register their node ID, in one map and over several maps incl. cross-map copies, IDs reserved by Instance.fixup_key and collapse_one of node entities (copy all, then reserve and reassign every copied node ID); replaceNN indexes of one entity are distinct and positive after the constructor on any list and every sequence of set/setdefault/update, del/pop, clear, rebuild by Entity.copy and copy/deepcopy/pickle. Constructor calls that FAIL: the constructor of every ID-bearing class is read off the source as a step list (for attrs classes the generated __init__: one store per field in declaration order, converters and factories inside the stores, validators after them, then __attrs_post_init__; self.id = <requested value> is a raw store, self.id = <manager>.get_id(..) a registration), together with the shape of the destructor (releases self.id / only under an ownership flag the constructor sets); for EVERY step list that passes the boolean ctor_ok, after every history of constructor calls with arbitrary desired IDs that complete or raise at any step that can raise, and of destructor calls of complete and half-built objects at any later time, the complete objects that exist have pairwise distinct positive IDs handed out to them (c08_failed_constructors_unique); the shape of seeded fault c08_8 / of the Solid class of the pinned tree (raw store, converter, registration, unguarded destructor) is refuted by a computed witness (brush IDs 1, 2, 2), and so is copy.copy() left to the default protocol (1, 1). The premises (release sites, ID stores, map argument of every constructor/copy call inside copy() methods and collapse_one, every write into Entity._keys and into the fixup index table, node-ID shapes, fixup acceptance test / deferral / start index, hint guard, the program of VMF.parse, the map argument of every constructor call in helpers such as make_prism, the manager class chosen when preserve_ids is false) are regenerated from the source on every run by a fail-closed translator that normalises names, test spellings, branch order, single-use locals, helper functions and loop forms, and are kernel-checked; IDMan, EntityFixup histories, the entity lifecycle, three-map histories of entities/brushes/faces/brush groups/visgroups (per kind and as bundled events), node-ID histories in one map and over three maps (with the real collapse_one) and VMF.parse results are compared with the models on random inputs (exact IDs); the half-built objects that junk constructor arguments and corrupted parse blocks really leave behind (found through the traceback: id slot set? registered by this call? flag? released when it died?) must be states of the step list read from the source; constructor and parse calls that fail on maps whose live objects hold the requested IDs (every class, every parameter with junk values, every leaf of an exported block corrupted or removed, the half-built object dropped at once or kept alive by the exception for a while) and copy.copy() of live objects are followed by allocations and a scan; histories over all ID kinds including collapse_one (visgroup False / True / a VisGroup), make_prism / make_hollow and maps that start as parsed documents (world id 1, small colliding IDs) are searched on real VMF objects, the worldspawn included in every entity scan, with a full gc.collect() at every step boundary.',
+    note='Trusted: Coq kernel + vm_compute, translate/c08_sites.py, c08_keys.py, c08_norm.py (which call sites matter: copy() methods of the five ID classes and collapse_one; other functions that build objects from a foreign map are not in the census), hand models SM/IdMan.v, SM/IdLife.v, SM/IdFixupHist.v, SM/IdWorld.v, SM/IdNest.v, SM/IdNode.v, SM/IdNodeMaps.v (tied by differential runs), CPython refcount/gc for __del__ timing (observed, not assumed, for the placeholder worldspawn of VMF.parse: weak references record at which constructor call it is gone; a full collection runs at every step boundary of the histories). Brush groups and visgroups are independent single-kind models (each class uses the manager of its kind: census obligation); their IDs are never released (no destructor: leak, modelled as such). collapse_one is an event of the nested model (which brushes and entities it copies, in which order, is computed by the model and compared with the real function; hidden objects, visgroup handling and the keyvalue rewriting are searched, not modelled). Node IDs reserved by Instance.fixup_key are never released (a leak; modelled as the events NReserve / MReserve and compared). In the several-maps node model a nodeid key is a node ID for the entity classes whose FGD type says so (the correspondence sets it on info_node only). The deprecated Entity.keys dict (returned by reference) and a table handed to EntityFixup.__setstate__ bypass the censuses (listed as exposures). Round 5: translate/c08_ctor.py is trusted for which statements of a constructor can raise (everything except `self.x = <name or constant>`; converters, validators, non-constant factories, on_setattr hooks) and for the order in which attrs runs them (tied to reality only through the observed half-built states); get_id itself is taken not to raise; the destructor of a half-built object is modelled as running at any later time (the traceback keeps it alive), an unset slot makes it raise AttributeError, which CPython ignores. Objects created behind the back of the constructor other than by copy.copy() (object.__new__, a hand-made __setstate__) are not covered; pickling a whole map recreates the managers together with the objects and is consistent. Maps opened with preserve_ids=True are exempt by definition: they use NullIDMan, which hands desired IDs out without looking; C08 assumes NullIDMan is used for nothing else, and the census obligation maps_get_idman_unless_preserve_ids checks that VMF.__init__ gives all six managers the class IDMan when preserve_ids is false, that it defaults to False in VMF.__init__ and VMF.parse and that parse hands its parameter on. A stage in which the implementation loops or raises ends as a VIOLATION with the stage and seed as replay (alarm timer around every stage).',
 )
 
-IMPORTS = ['SV.SM.IdMan', 'SV.SM.IdManSpec', 'SV.SM.IdLife', 'SV.SM.IdFixupHist', 'SV.SM.IdWorld', 'SV.SM.IdNest', 'SV.SM.IdNode', 'SV.SM.IdNodeMaps', 'SV.Gen.IdSites_gen', 'SV.Props.C08',
+IMPORTS = ['SV.SM.IdMan', 'SV.SM.IdManSpec', 'SV.SM.IdLife', 'SV.SM.IdFixupHist', 'SV.SM.IdWorld', 'SV.SM.IdNest', 'SV.SM.IdNode', 'SV.SM.IdNodeMaps', 'SV.SM.IdCtor', 'SV.Gen.IdSites_gen', 'SV.Props.C08',
            'Coq.ZArith.ZArith', 'Coq.Lists.List']
 PRE = '''Import ListNotations. Open Scope Z_scope.
 Fixpoint zl_eqb (a b : list Z) : bool := match a, b with [] , [] => true | x :: a', y :: b' => Z.eqb x y && zl_eqb a' b' | _, _ => false end.
@@ -1940,6 +1940,395 @@ def _post_vis(lst):
 
 
 # ------------------------------------------------------------------------------------------------ main
+# ---------------------------------------------------------------------------------------------------------------------------------
+# Round 5: constructor / parse calls that FAIL on a map whose live objects hold the requested IDs.  The caller catches the exception and
+# carries on; the half-built object dies (at once, or later when the exception object goes); then new objects are allocated and the map
+# is scanned.  Every ID-bearing class, every constructor parameter with junk values, every leaf of an exported block corrupted.
+
+JUNK_ARGS = [5, 'grp_a', None, 3.5, [[1]], object]      # `object` stands for a fresh object() (replayable)
+JUNK_TEXT = ['grp_a', '', '(0 0', '1 2 x', '[0 0', '-']
+ID_PARAMS = {'Solid': 'id', 'Side': 'des_id', 'Entity': 'ent_id', 'VisGroup': 'id', 'EntityGroup': 'id'}
+KIND_OF_CLASS = {'Solid': 'solid', 'Side': 'face', 'Entity': 'ent', 'VisGroup': 'vis', 'EntityGroup': 'group'}
+
+
+def _fc_map():
+    """A small map whose live objects hold the IDs 1.. of every kind: 3 world brushes, a brush entity, two point entities (one nav
+    node), a visgroup with a child, a brush group."""
+    from srctools import Vec
+    from srctools.vmf import VMF, VisGroup, EntityGroup
+    v = VMF()
+    for i in range(3):
+        v.add_brush(v.make_prism(Vec(128 * i, 0, 0), Vec(128 * i + 64, 64, 64)).solid)
+    be = v.create_ent('func_detail')
+    be.solids.append(v.make_prism(Vec(0, 256, 0), Vec(64, 320, 64)).solid)
+    v.create_ent('info_target', targetname='t')
+    v.create_ent('info_node', nodeid='1')
+    child = VisGroup(v, 'child')
+    v.vis_tree.append(VisGroup(v, 'top', child_groups=[child]))
+    g = EntityGroup(v)
+    v.groups[g.id] = g
+    from srctools.vmf import Output
+    for b in v.brushes[:2]:         # blocks with every optional key
+        b.group_id = g.id
+        b.visgroup_ids.add(1)
+    be.groups.add(g.id)
+    be.visgroup_ids.add(1)
+    be.add_out(Output('OnUser1', 't', 'Kill'))
+    be.solids[0].visgroup_ids.add(2)
+    return v
+
+
+def _fc_allocate(v) -> None:
+    """New objects of every kind, enough to walk through the small IDs."""
+    from srctools import Vec
+    from srctools.vmf import VisGroup, EntityGroup
+    for i in range(2):
+        v.add_brush(v.make_prism(Vec(128 * i, 512, 0), Vec(128 * i + 64, 576, 64)).solid)
+    v.create_ent('info_target')
+    v.create_ent('info_node', nodeid='-1')
+    v.vis_tree.append(VisGroup(v, 'later'))
+    g = EntityGroup(v)
+    v.groups[g.id] = g
+
+
+def _fc_required(cls_name: str):
+    from srctools import Vec
+    return {'Side': {'planes': [Vec(0, 0, 0), Vec(1, 0, 0), Vec(0, 1, 0)]}, 'VisGroup': {'name': 'x'}}.get(cls_name, {})
+
+
+def _fc_target(v, cls_name: str, which: int) -> int:
+    ids = scan_map(v)[KIND_OF_CLASS[cls_name]]
+    return ids[which % len(ids)]
+
+
+def fc_ctor_case(cls_name: str, param: str, junk: list[int], which: int, hold: bool):
+    """Constructor calls `cls(map, <id param>=<ID of a live object>, <param>=<junk>)` for the listed junk values; returns
+    (problems after the allocations that follow, number of calls that raised)."""
+    import srctools.vmf as V
+    cls = getattr(V, cls_name)
+    v = _fc_map()
+    kept = []
+    raised = 0
+    for j in junk:
+        val = JUNK_ARGS[j]
+        val = object() if val is object else val
+        kw = dict(_fc_required(cls_name))
+        kw[ID_PARAMS[cls_name]] = _fc_target(v, cls_name, which)
+        if cls_name == 'Entity':    # a nav-node entity: the node ID a live entity holds is requested too (registered key by key, before later steps can raise)
+            kw['keys'] = {'classname': 'info_node', 'nodeid': str(scan_map(v)['node'][0])}
+        kw[param] = val
+        try:
+            cls(v, **kw)
+        except Exception as e:      # the caller of a failing constructor: catches, carries on
+            raised += 1
+            if hold:
+                kept.append(e)      # the traceback keeps the half-built object alive for a while
+    gc.collect()
+    if hold:
+        _fc_allocate(v)
+        del kept[:]
+        gc.collect()
+    _fc_allocate(v)
+    return list(dup_report(scan_map(v))), raised
+
+
+def _fc_blocks(v):
+    """Exported blocks of live objects of the map, by class: their "id"s are IDs that live objects hold."""
+    import io
+    from srctools import Keyvalues
+    out = {}
+    buf = io.StringIO()
+    v.brushes[1].export(buf, '')
+    out['Solid'] = Keyvalues.parse(buf.getvalue()).find_key('solid')
+    out['Side'] = next(out['Solid'].find_all('side')).copy()
+    buf = io.StringIO()
+    v.entities[0].export(buf, '')
+    out['Entity'] = Keyvalues.parse(buf.getvalue()).find_key('entity')
+    out['VisGroup'] = Keyvalues('visgroup', [Keyvalues('name', 'top'), Keyvalues('visgroupid', '1'), Keyvalues('color', '1 2 3'),
+                                             Keyvalues('visgroup', [Keyvalues('name', 'c'), Keyvalues('visgroupid', '2'), Keyvalues('color', '1 2 3')])])
+    out['EntityGroup'] = Keyvalues('group', [Keyvalues('id', '1'), Keyvalues('editor', [Keyvalues('color', '1 2 3'), Keyvalues('visgroupshown', '1'),
+                                                                                          Keyvalues('visgroupautoshown', '1')])])
+    return out
+
+
+def _fc_leaves(block, path=()):
+    for i, ch in enumerate(block):
+        if ch.has_children():
+            yield from _fc_leaves(ch, path + (i,))
+        else:
+            yield path + (i,)
+
+
+def _fc_at(block, path):
+    for i in path:
+        block = list(block)[i]
+    return block
+
+
+def fc_parse_case(cls_name: str, leaf: int, junk: list[int], hold: bool):
+    """`cls.parse(map, block)` on the exported block of a live object (so every "id" in it is taken) with one leaf value replaced
+    by junk text (index len(JUNK_TEXT) = the leaf is removed)."""
+    import srctools.vmf as V
+    cls = getattr(V, cls_name)
+    v = _fc_map()
+    base = _fc_blocks(v)[cls_name]
+    leaves = list(_fc_leaves(base))
+    path = leaves[leaf % len(leaves)]
+    kept = []
+    raised = 0
+    name = None
+    for j in junk:
+        block = base.copy()
+        tgt = _fc_at(block, path)
+        name = tgt.real_name
+        if j >= len(JUNK_TEXT):
+            parent = _fc_at(block, path[:-1])
+            del parent[path[-1]]
+        else:
+            tgt.value = JUNK_TEXT[j]
+        try:
+            cls.parse(v, block)
+        except Exception as e:
+            raised += 1
+            if hold:
+                kept.append(e)
+    gc.collect()
+    if hold:
+        _fc_allocate(v)
+        del kept[:]
+        gc.collect()
+    _fc_allocate(v)
+    return list(dup_report(scan_map(v))), raised, name, len(leaves)
+
+
+def fc_shallow_case(cls_name: str, which: int, hold: bool):
+    """copy.copy() of the `which`-th live object of the class; the copy is dropped (at once, or after some allocations); new objects
+    are allocated; problems of the scan."""
+    import copy
+    v = _fc_map()
+    live = {'Solid': lambda: list(v.brushes), 'Side': lambda: [b.sides[0] for b in v.brushes], 'Entity': lambda: list(v.entities),
+            'VisGroup': lambda: list(_walk_vis(v.vis_tree)), 'EntityGroup': lambda: list(v.groups.values())}[cls_name]()
+    x = copy.copy(live[which % len(live)])
+    del live
+    if hold:
+        _fc_allocate(v)
+    probs = list(dup_report(scan_map(v)))
+    del x
+    gc.collect()
+    _fc_allocate(v)
+    return probs + list(dup_report(scan_map(v)))
+
+
+def search_failed_constructors(ck: Ck) -> None:
+    import sys
+    hook = sys.unraisablehook
+    # the destructor of an object whose constructor failed before `self.map` / `self.id` were set raises AttributeError, which CPython
+    # reports through this hook ("Exception ignored in ..."): expected here, not printed
+    sys.unraisablehook = lambda *a: None
+    try:
+        _search_failed_constructors(ck)
+    finally:
+        sys.unraisablehook = hook
+
+
+def _search_failed_constructors(ck: Ck) -> None:
+    import inspect
+    import srctools.vmf as V
+    found: dict[str, tuple] = {}
+    gc_begin()
+    all_junk = list(range(len(JUNK_ARGS)))
+    n_ctor = n_raise = 0
+    for cls_name in ID_PARAMS:
+        cls = getattr(V, cls_name)
+        params = [p for p in list(inspect.signature(cls.__init__).parameters)[2:] if p != ID_PARAMS[cls_name]]
+        for pi, param in enumerate(params):
+            for hold in (False, True):
+                which = ck.rng.randrange(4)
+                probs, raised = fc_ctor_case(cls_name, param, all_junk, which, hold)
+                n_ctor += len(all_junk)
+                n_raise += raised
+                ck.count('failed_constructor_calls', len(all_junk))
+                ck.hist('failed_constructor_class', cls_name, raised)
+                if raised:
+                    ck.seen(('failctor', cls_name, param, hold, which))
+                if probs:
+                    # narrow to one junk value
+                    for j in all_junk:
+                        p1, _ = fc_ctor_case(cls_name, param, [j], which, hold)
+                        if p1:
+                            kind, what, vals = p1[0]
+                            key = f'{"fixup-index" if kind.startswith("fixup") else kind + "-id"}-{what}-after-failed-constructor'
+                            found.setdefault(key, (f'{cls_name}(map, {ID_PARAMS[cls_name]}=<ID of a live object>, {param}={JUNK_ARGS[j]!r}) raises; afterwards '
+                                                   f'{kind} IDs {what}: {vals}',
+                                                   {'mode': 'ctor', 'cls': cls_name, 'param': param, 'junk': [j], 'which': which, 'hold': hold, 'problem': [kind, what, vals]}))
+                            break
+    all_text = list(range(len(JUNK_TEXT) + 1))
+    for cls_name in ID_PARAMS:
+        n_leaves = fc_parse_case(cls_name, 0, [], False)[3]
+        step = 1        # every leaf: the whole family costs a few seconds
+        start = ck.rng.randrange(step)
+        for leaf in range(start, n_leaves, step):
+            hold = bool((leaf // step) % 2)
+            probs, raised, name, _ = fc_parse_case(cls_name, leaf, all_text, hold)
+            ck.count('failed_parse_calls', len(all_text))
+            ck.hist('failed_parse_class', cls_name, raised)
+            n_raise += raised
+            if raised:
+                ck.seen(('failparse', cls_name, leaf, hold))
+            if probs:
+                for j in all_text:
+                    p1, _, _, _ = fc_parse_case(cls_name, leaf, [j], hold)
+                    if p1:
+                        kind, what, vals = p1[0]
+                        key = f'{"fixup-index" if kind.startswith("fixup") else kind + "-id"}-{what}-after-failed-parse'
+                        jt = repr(JUNK_TEXT[j]) if j < len(JUNK_TEXT) else '<removed>'
+                        found.setdefault(key, (f'{cls_name}.parse(map, <exported block of a live object with "{name}" = {jt}>) raises; afterwards {kind} IDs {what}: {vals}',
+                                               {'mode': 'parse', 'cls': cls_name, 'leaf': leaf, 'junk': [j], 'hold': hold, 'problem': [kind, what, vals]}))
+                        break
+    # objects that come into being WITHOUT the constructor: copy.copy() of a live object (same map).  A field-by-field duplicate would
+    # hold the ID of its source without having registered it, and release it when it dies.
+    for cls_name in ID_PARAMS:
+        for which in range(3):
+            for hold in (False, True):
+                probs = fc_shallow_case(cls_name, which, hold)
+                ck.count('copy_module_copies')
+                ck.seen(('shallow', cls_name, which, hold))
+                if probs:
+                    kind, what, vals = probs[0]
+                    key = f'{"fixup-index" if kind.startswith("fixup") else kind + "-id"}-{what}-after-copy-module-copy'
+                    found.setdefault(key, (f'copy.copy(<live {cls_name}>) is dropped; afterwards {kind} IDs {what}: {vals}',
+                                           {'mode': 'shallow', 'cls': cls_name, 'which': which, 'hold': hold, 'problem': [kind, what, vals]}))
+    gc_end()
+    ck.extra['failed_constructor_search'] = {'constructor_calls': n_ctor, 'calls_that_raised': n_raise}
+    ck.obligation('search:some-constructor-calls-do-fail', n_raise >= 20, f'{n_raise} of the junk / corrupted calls raised')
+    for key, (what, rep) in found.items():
+        rep['how'] = 'checks.c08.fc_ctor_case(cls, param, junk, which, hold) / fc_parse_case(cls, leaf, junk, hold): problems after the failing call, gc and new allocations'
+        ck.violation(key, what, rep)
+
+
+CTOR_PRE = PRE + '''
+Definition ctor_obs_ok (k : kind) (o : bool * bool * bool * bool) : bool :=
+  match List.find (fun r : kind * String.string * list ctor_step * bool * bool => kind_eqb k (fst (fst (fst (fst r))))) ctor_classes with
+  | Some r =>
+      let steps := List.map ctor_step_of (snd (fst (fst r))) in
+      let has := fst (fst (fst o)) in let reg := snd (fst (fst o)) in let own := snd (fst o) in
+      andb (existsb (fun s : bool * bool * bool => andb (andb (Bool.eqb (fst (fst s)) has) (Bool.eqb (snd (fst s)) reg)) (Bool.eqb (snd s) own))
+                    (fail_states steps false false false))
+           (Bool.eqb (snd o) (andb (andb (snd (fst r)) (orb (negb (snd r)) own)) has))
+  | None => false
+  end.
+'''
+MGR_OF_CLASS = {'Solid': 'solid_id', 'Side': 'face_id', 'Entity': 'ent_id', 'VisGroup': 'vis_id', 'EntityGroup': 'group_id'}
+
+
+def fc_observe(cls_name: str, flag: str | None, fn):
+    """One failing call on a fresh map: the state of the half-built object of class `cls_name` (found through the traceback: the
+    outermost `__init__` frame whose `self` is of that class) as (slot `id` set, the value was handed out by the manager during this
+    call, ownership flag, the ID it holds left the manager when the object died).  None: the call did not raise / no object existed."""
+    import srctools.vmf as V
+    cls = getattr(V, cls_name)
+    v = _fc_map()
+    mgr = getattr(v, MGR_OF_CLASS[cls_name])
+    before = set(mgr)
+    exc = None
+    try:
+        fn(v)
+    except Exception as e:
+        exc = e
+    if exc is None:
+        return None
+    obj = None
+    tb = exc.__traceback__
+    while tb is not None:
+        fr = tb.tb_frame
+        if fr.f_code.co_name == '__init__' and type(fr.f_locals.get('self')) is cls:
+            obj = fr.f_locals['self']
+            break
+        tb = tb.tb_next
+    fr = tb = None
+    if obj is None:
+        return None
+    has = hasattr(obj, 'id')
+    hid = obj.id if has else None
+    reg = bool(has and hid in (set(mgr) - before))
+    own = bool(getattr(obj, flag, False)) if flag else False
+    held = has and hid in mgr
+    obj = exc = None
+    gc.collect()
+    released = bool(held and hid not in mgr)
+    return (has, reg, own, released)
+
+
+def corr_ctor(ck: Ck, rows: list[dict]):
+    """The constructor step lists read from the source (SM/IdCtor.v fail_states / the destructor shape) against the half-built objects
+    that failing constructor and parse calls really leave behind."""
+    import inspect
+    import sys
+    import srctools.vmf as V
+    hook = sys.unraisablehook
+    sys.unraisablehook = lambda *a: None
+    obs: dict[str, dict[tuple, str]] = {}
+    n_calls = 0
+    try:
+        gc_begin()
+        for row in rows:
+            cls_name, flag = row['cls'], row.get('flag')
+            cls = getattr(V, cls_name)
+            seen: dict[tuple, str] = obs.setdefault(cls_name, {})
+            params = [p for p in list(inspect.signature(cls.__init__).parameters)[2:] if p != ID_PARAMS[cls_name]]
+            for param in params:
+                for j in range(len(JUNK_ARGS)):
+                    def call(v, param=param, j=j):
+                        val = object() if JUNK_ARGS[j] is object else JUNK_ARGS[j]
+                        kw = dict(_fc_required(cls_name))
+                        kw[ID_PARAMS[cls_name]] = _fc_target(v, cls_name, j)
+                        kw[param] = val
+                        cls(v, **kw)
+                    o = fc_observe(cls_name, flag, call)
+                    n_calls += 1
+                    if o is not None:
+                        seen.setdefault(o, f'{cls_name}(map, {ID_PARAMS[cls_name]}=<live ID>, {param}={JUNK_ARGS[j]!r})')
+                        ck.hist('half_built_states', f'{cls_name}:id_set={o[0]},registered={o[1]},owned={o[2]},released={o[3]}')
+            n_leaves = fc_parse_case(cls_name, 0, [], False)[3]
+            for leaf in range(n_leaves):
+                for j in (0, 2, len(JUNK_TEXT)):        # a word, a broken vector, the leaf removed (the search stage tries all)
+                    def call(v, leaf=leaf, j=j):
+                        base = _fc_blocks(v)[cls_name]
+                        path = list(_fc_leaves(base))[leaf]
+                        if j >= len(JUNK_TEXT):
+                            del _fc_at(base, path[:-1])[path[-1]]
+                        else:
+                            _fc_at(base, path).value = JUNK_TEXT[j]
+                        cls.parse(v, base)
+                    o = fc_observe(cls_name, flag, call)
+                    n_calls += 1
+                    if o is not None:
+                        seen.setdefault(o, f'{cls_name}.parse(map, <block of a live object, leaf {leaf} := junk {j}>)')
+                        ck.hist('half_built_states', f'{cls_name}:id_set={o[0]},registered={o[1]},owned={o[2]},released={o[3]}')
+        gc_end()
+    finally:
+        sys.unraisablehook = hook
+    ck.count('ctor_failure_observations', n_calls)
+    b = {True: 'true', False: 'false'}
+    order = [(r['kind'], r['cls'], sorted(obs.get(r['cls'], {}))) for r in rows]
+    exprs = [f'bad_idx (ctor_obs_ok {kind}) 0 {coq_list("(%s, %s, %s, %s)" % tuple(b[x] for x in o) for o in lst)}' for kind, _, lst in order]
+    res = yield ('ctor', CTOR_PRE, exprs, 8)
+    if res is None:
+        ck.obligation('correspondence:ctor-failure-states', False, 'model could not be evaluated')
+        ck.tie_broken.append('correspondence constructor failure states: model evaluation failed')
+        return
+    bad = [(cls, lst[i], obs[cls][lst[i]]) for (kind, cls, lst), idxs in zip(order, res) for i in idxs]
+    n_states = sum(len(l) for _, _, l in order)
+    ck.obligation('correspondence:ctor-failure-states', not bad and n_states >= 2,
+                  f'{n_calls} junk / corrupted constructor and parse calls, {n_states} distinct (class, id slot set, registered, flag, released) states of half-built '
+                  f'objects, each must be a state of the step list read from the source and released as its destructor shape says: {len(bad)} disagreements')
+    ck.extra['half_built_states'] = {cls: [{'id_set': o[0], 'registered': o[1], 'owned': o[2], 'released_on_death': o[3], 'example': obs[cls][o]} for o in lst]
+                                     for _, cls, lst in order}
+    if bad:
+        ck.tie_broken.append('correspondence constructor failure states (SM/IdCtor.v fail_states vs half-built objects found through the traceback)')
+        ck.extra['ctor_state_disagreement'] = [{'cls': c, 'state(id_set,registered,owned,released)': list(o), 'example': ex} for c, o, ex in bad[:5]]
+
+
 class ImplHang(BaseException):      # not an Exception: the `except Exception` of a history runner must not swallow it
     pass
 
@@ -2043,15 +2432,23 @@ def run(ck: Ck) -> None:
                'init lists with colliding/non-positive indexes followed by set/setdefault/update, del/pop, clear, Entity.copy rebuilds and '
                'copy/deepcopy/pickle, directly or through an Entity, non-trivial = at least two variables left (thorough: in addition every constructor '
                'argument of up to 2 values followed by every sequence of up to 2 operations, and of 3 values followed by at most one); '
+               'failed constructors: every constructor parameter of the five ID classes x 6 junk values and every leaf of the exported block of a live object x 6 junk texts / removed '
+               '(through cls.parse), requested ID = ID of a live object, exception dropped at once or kept across allocations, then new objects of every kind and a scan; copy.copy() of '
+               'live objects; non-trivial = at least one call of the group raised; '
                'distinct by full sequence / text')
     ck.trusted.append('hand-written models SM/IdMan.v, SM/IdLife.v, SM/IdFixupHist.v, SM/IdWorld.v, SM/IdNest.v, SM/IdNode.v, SM/IdNodeMaps.v (tied by differential correspondence on every run)')
     ck.trusted.append('translate/c08_parse.py (which statements of VMF.parse touch entity / brush / face IDs; constructor calls spelled through a module attribute are not in the helper census)')
+    ck.trusted.append('translate/c08_ctor.py (which steps of a constructor can raise, the order in which the attrs-generated __init__ runs stores / converters / validators / '
+                      '__attrs_post_init__; tied to the attrs library only through the observed states of half-built objects); hand model SM/IdCtor.v')
+    ck.assumptions.append('IDMan.get_id does not raise; objects come into being only through the constructor or copy.copy() (not object.__new__ / a hand-made __setstate__)')
     ck.assumptions.append('NullIDMan is used only for maps opened with preserve_ids=True (census obligation maps_get_idman_unless_preserve_ids); such maps are exempt')
     ck.assumptions.append('objects are added to the map they were constructed for (VMF.add_ent docstring); Entity._keys is only written through the mapping API')
     ok_t = ck.translate('IdSites_gen', c08_sites.translate)
     side = ck.extra.get('translated', {}).get('IdSites_gen', {})
     built = ok_t and ck.build(['Props/C08.vo'])
     th = None
+    ctor_only = False
+    failed: list[str] = []
     if built:
         # Print Assumptions of every statement of Props/C08.v takes a coqc process of its own (10-20 s on a loaded machine): it runs in
         # a worker thread on a copy of `ck` with lists of its own, merged below at the position where the results belong.  The instance
@@ -2084,19 +2481,33 @@ def run(ck: Ck) -> None:
             'vmf_parse_releases_no_id_itself': 'parse_releases_nothing',
             'helpers_build_every_part_in_the_one_map_they_are_given': 'andb (forallb snd helper_ctor_sites) (negb (Nat.eqb (length helper_ctor_sites) 0))',
             'maps_get_idman_unless_preserve_ids': 'managers_are_idman_unless_preserve_ids',
+            # round 5: at no point where the constructor can raise would the destructor release an ID the object has not registered
+            'entity_constructor_failure_releases_only_its_own_id': 'constructor_fails_safely KEnt',
+            'solid_constructor_failure_releases_only_its_own_id': 'constructor_fails_safely KSolid',
+            'face_constructor_failure_releases_only_its_own_id': 'constructor_fails_safely KFace',
+            'visgroup_constructor_failure_releases_only_its_own_id': 'constructor_fails_safely KVis',
+            'group_constructor_failure_releases_only_its_own_id': 'constructor_fails_safely KGroup',
+            'constructors_fail_safely': 'constructors_fail_safely',
+            'copy_module_copies_go_through_copy': 'copy_module_copies_are_real_copies',
             'no_unclassified_release_site': 'forallb (fun x : kind * site * String.string => match snd (fst x) with SOther => false | _ => true end) release_sites',
         })
         prog = [r[0] for r in side.get('parse_program', [])] or None
         failed = sorted(n for n, ok in res.items() if not ok)
-        if failed:      # a premise of the theorems does not hold on this tree: search with the large budgets from the first stage on
+        # a premise of the theorems does not hold on this tree: search with the large budgets from the first stage on -- unless only the
+        # constructor-failure / copy-module premises failed: their search stage is exhaustive over its family with any budget, so the other
+        # stages keep their budgets and are escalated (second pass below) only if that stage finds no failing input
+        ctor_only = bool(failed) and all('constructor' in n or 'copy_module' in n for n in failed)
+        if failed and not ctor_only:
             ck.tie_broken.append('instance obligations: ' + ', '.join(failed))
         ror = any(r[0] == 'KEnt' and r[1] != 'SDel' for r in side.get('releases', []))
         stages = [('idman', corr_idman, ()), ('fixup', corr_fixups, (bool(side.get('fixup_init_requires_positive')), bool(side.get('fixup_init_defers', True)))),
-                  ('lifecycle', corr_lifecycle, (ror,)), ('world', corr_world, (prog,)), ('node', corr_nodes, ()), ('parse', corr_parse, (prog,))]
+                  ('lifecycle', corr_lifecycle, (ror,)), ('world', corr_world, (prog,)), ('node', corr_nodes, ()), ('parse', corr_parse, (prog,)),
+                  ('ctor', corr_ctor, (side.get('ctor_classes', []),))]
         escalated_from_start = bool(ck.tie_broken)
         for name, fn, args in stages:
             guarded(ck, name, fn, *args)
     guarded(ck, 'search', search_lifecycle)
+    guarded(ck, 'failed-constructors', search_failed_constructors)
     if th is not None:
         th.result()
         ck.obligations[th_pos:th_pos] = ck_t.obligations
@@ -2106,6 +2517,8 @@ def run(ck: Ck) -> None:
     for stage, gen, fut in _pending:
         guarded(ck, stage, None, resume=(gen, fut))
     del _pending[:]
+    if built and ctor_only and not any('-after-failed-' in v['key'] or '-after-copy-module-copy' in v['key'] for v in ck.violations):
+        ck.tie_broken.append('instance obligations: ' + ', '.join(failed))
     if built and ck.tie_broken and not escalated_from_start and not _hung:
         # a correspondence disagrees, and its verdict came after every stage had generated its cases with the small budgets (the Coq
         # evaluations run in the background): once more, one stage after the other, with the large budgets a broken tie gets --
@@ -2156,6 +2569,14 @@ def run(ck: Ck) -> None:
         ck.explain('instance:maps_get_idman_unless_preserve_ids')
     if has('xmap-') or has('solid-id-duplicate') or has('face-id-duplicate'):
         ck.explain('instance:helpers_build_every_part_in_the_one_map_they_are_given')
+    for kind, name in (('solid', 'solid'), ('face', 'face'), ('ent', 'entity'), ('vis', 'visgroup'), ('group', 'group')):
+        if has(kind + '-id-', '-after-failed-'):
+            ck.explain(f'instance:{name}_constructor_failure_releases_only_its_own_id')
+            ck.explain('instance:constructors_fail_safely')
+            ck.explain('correspondence:ctor-failure-states')
+            ck.explain('instance:every_id_store_is_a_get_id_result')      # a raw store to .id in a constructor is what the replay needs
+    if has('-after-copy-module-copy'):
+        ck.explain('instance:copy_module_copies_go_through_copy')
     if has('parse-') or has('-after-parse'):
         ck.explain('correspondence:parse')
         ck.explain('correspondence:parse-destructor-time')
@@ -2173,6 +2594,15 @@ def run(ck: Ck) -> None:
 
 def replay(data: dict) -> int:
     r = data['replay']
+    if r.get('mode') == 'ctor':
+        print(fc_ctor_case(r['cls'], r['param'], r['junk'], r['which'], r['hold']))
+        return 0
+    if r.get('mode') == 'parse':
+        print(fc_parse_case(r['cls'], r['leaf'], r['junk'], r['hold']))
+        return 0
+    if r.get('mode') == 'shallow':
+        print(fc_shallow_case(r['cls'], r['which'], r['hold']))
+        return 0
     if 'history' in r:
         steps, _, _ = run_history([tuple(e) for e in r['history']])
         for i, s in enumerate(steps):
